@@ -1884,22 +1884,21 @@ func (d *Decoder) decodeAttachmentTypeValue(visited *cadenceTypeByCCFTypeID) (ca
 	ctr := func(
 		location common.Location,
 		qualifiedIdentifier string,
-		typ cadence.Type,
+		_ cadence.Type,
 	) (cadence.Type, error) {
-		if typ == nil {
-			return nil, fmt.Errorf("encoded attachment-type-value has nil base type")
-		}
+		// NOTE: the base type is decoded and set after the attachment type is resolved,
+		// because the base type can refer to the attachment type.
 		return cadence.NewMeteredAttachmentType(
 			d.gauge,
 			location,
 			qualifiedIdentifier,
-			typ,
+			nil,
 			nil,
 			nil,
 		), nil
 	}
 
-	return d.decodeCompositeTypeValue(visited, ctr)
+	return d.decodeCompositeTypeValueWithDeferredType(visited, ctr, true)
 }
 
 // decodeStructInterfaceTypeValue decodes struct-inteface-type-value as
@@ -2002,6 +2001,7 @@ type compositeTypeValue struct {
 	location        common.Location
 	identifier      string
 	typ             cadence.Type
+	rawType         []byte
 	rawFields       []byte
 	rawInitializers []byte
 }
@@ -2018,7 +2018,18 @@ func (d *Decoder) decodeCompositeTypeValue(
 	visited *cadenceTypeByCCFTypeID,
 	constructor compositeTypeConstructor,
 ) (cadence.Type, error) {
-	compTypeValue, err := d._decodeCompositeTypeValue(visited)
+	return d.decodeCompositeTypeValueWithDeferredType(visited, constructor, false)
+}
+
+// decodeCompositeTypeValueWithDeferredType decodes composite-type-value.
+// If deferType is true, the type element (the base type of an attachment type) is decoded
+// after the composite type is resolved, because it can refer to the composite type.
+func (d *Decoder) decodeCompositeTypeValueWithDeferredType(
+	visited *cadenceTypeByCCFTypeID,
+	constructor compositeTypeConstructor,
+	deferType bool,
+) (cadence.Type, error) {
+	compTypeValue, err := d._decodeCompositeTypeValue(visited, deferType)
 	if err != nil {
 		return nil, err
 	}
@@ -2043,6 +2054,24 @@ func (d *Decoder) decodeCompositeTypeValue(
 		//
 		//   "composite-type-value.id MUST be unique in the same composite-type-value data item."
 		return nil, fmt.Errorf("found duplicate CCF type ID %d in encoded composite-type-value", compTypeValue.ccfID)
+	}
+
+	if deferType {
+		// Decode base type after type is resolved to handle recursive types.
+		dec := d.dm.NewDecoder(d.gauge, compTypeValue.rawType)
+		baseType, err := dec.decodeNullableTypeValue(visited)
+		if err != nil {
+			return nil, err
+		}
+
+		attachmentType, ok := compositeType.(*cadence.AttachmentType)
+		if !ok {
+			return nil, fmt.Errorf("unexpected deferred type for composite type value %T", compositeType)
+		}
+		if baseType == nil {
+			return nil, fmt.Errorf("encoded attachment-type-value has nil base type")
+		}
+		attachmentType.BaseType = baseType
 	}
 
 	// Decode fields after type is resolved to handle recursive types.
@@ -2131,7 +2160,10 @@ func (d *Decoder) decodeCompositeTypeValue(
 //	]
 //
 // ]
-func (d *Decoder) _decodeCompositeTypeValue(visited *cadenceTypeByCCFTypeID) (*compositeTypeValue, error) {
+func (d *Decoder) _decodeCompositeTypeValue(
+	visited *cadenceTypeByCCFTypeID,
+	deferType bool,
+) (*compositeTypeValue, error) {
 	// Decode array of length 5
 	err := decodeCBORArrayWithKnownSize(d.dec, 5)
 	if err != nil {
@@ -2162,8 +2194,15 @@ func (d *Decoder) _decodeCompositeTypeValue(visited *cadenceTypeByCCFTypeID) (*c
 		return nil, err
 	}
 
-	// element 2: type (only used by enum type value)
-	typ, err := d.decodeNullableTypeValue(visited)
+	// element 2: type (only used by enum type value and attachment type value)
+	var typ cadence.Type
+	var rawType []byte
+	if deferType {
+		// The type is decoded by the caller, after the composite type is resolved.
+		rawType, err = d.dec.DecodeRawBytes()
+	} else {
+		typ, err = d.decodeNullableTypeValue(visited)
+	}
 	if err != nil {
 		return nil, err
 	}
@@ -2185,6 +2224,7 @@ func (d *Decoder) _decodeCompositeTypeValue(visited *cadenceTypeByCCFTypeID) (*c
 		location:        location,
 		identifier:      identifier,
 		typ:             typ,
+		rawType:         rawType,
 		rawFields:       rawFields,
 		rawInitializers: rawInitializers,
 	}, nil
